@@ -1,6 +1,7 @@
 package main
 
 import (
+	"encoding/binary"
 	"bufio"
 	"bytes"
 	"fmt"
@@ -12,6 +13,7 @@ import (
 func init() {
 	generators["fw"] = genFW       // Writer sessions: option matrix x inputs x delivery (C02 C09 C14)
 	generators["fwck"] = genFWck     // checksum-bearing frames (C13): header with content size, block and content checksums
+	generators["frck"] = genFRck     // frames whose header / block / content checksum is wrong in one place (C13)
 	generators["fwlife"] = genFWLife // Writer lifecycle / misuse sequences (C17)
 	generators["fwfail"] = genFWFail // failing sinks (C15)
 	generators["fr"] = genFR       // Reader sessions over valid frames (C02 C16 C17)
@@ -139,6 +141,18 @@ func genFW(w *bufio.Writer, thorough bool, r *Rng) {
 			fmt.Fprintf(w, "W -1 A:%s w:%s c\n", o.String(), saveBlob("edge", c))
 		}
 	}
+	// two frames through one Writer: the declared content size and the other options persist across Reset
+	for i := 0; i < 10; i++ {
+		sz := r.Pick([]int{5, 100, 70000})
+		o := wopts{bs: 65536, bc: r.Intn(2), cc: r.Intn(2), sz: sz, lvl: 0, conc: r.Pick([]int{1, 2})}
+		more := []string{"", "A:bc=1", "A:cc=0,lvl=512"}[r.Intn(3)]
+		ops := []string{"A:" + o.String(), "w:" + dataTok(r, sz, 0), "c", "R:-1"}
+		if more != "" {
+			ops = append(ops, more)
+		}
+		ops = append(ops, "w:"+dataTok(r, sz, 0), "c")
+		fmt.Fprintf(w, "W -1 %s\n", strings.Join(ops, " "))
+	}
 	// crafted: block / content whose XXH32 is 0 (27 11 4b 23), with block checksums
 	fmt.Fprintf(w, "W -1 A:bs=65536,bc=1,cc=1,sz=0,lvl=0,conc=1,leg=0 w:x27114b23 c\n")
 	fmt.Fprintf(w, "W -1 A:bs=65536,bc=1,cc=0,sz=4,lvl=512,conc=2,leg=0 w:x27114b23 f w:x27114b23 c\n")
@@ -157,10 +171,15 @@ func genFWck(w *bufio.Writer, thorough bool, r *Rng) {
 			o.sz = 1 + r.Intn(1<<30) // any declared size goes into the header checksum
 		}
 		ops := []string{"A:" + o.String()}
-		if r.Bool() {
+		switch r.Intn(3) {
+		case 0:
 			ops = append(ops, "w:"+dataTok(r, sz, o.lvl))
-		} else {
+		case 1:
 			ops = append(ops, splitWrites(r, sz, o.lvl)...)
+		default:
+			rsz := r.Pick([]int{0, o.bs, 2 * o.bs, sz})
+			ops[0] = "A:" + strings.Replace(o.String(), fmt.Sprintf("sz=%d", o.sz), fmt.Sprintf("sz=%d", rsz), 1)
+			ops = append(ops, fmt.Sprintf("rf:%s:%d:-1:%d", dataTok(r, rsz, o.lvl), r.Pick([]int{0, 4096}), r.Intn(2)))
 		}
 		ops = append(ops, "c")
 		fmt.Fprintf(w, "W -1 %s\n", strings.Join(ops, " "))
@@ -171,6 +190,42 @@ func genFWck(w *bufio.Writer, thorough bool, r *Rng) {
 		in := append(append([]byte{}, pre...), zeroStripe(pre)...)
 		rest := r.Bytes(1 + r.Intn(50))
 		fmt.Fprintf(w, "W -1 A:bs=65536,bc=%d,cc=1,sz=0,lvl=0,conc=%d,leg=0 w:x%s f w:x%s c\n", r.Intn(2), r.Pick([]int{1, 2}), hx(in), hx(rest))
+	}
+}
+
+func genFRck(w *bufio.Writer, thorough bool, r *Rng) {
+	n := 30
+	if thorough {
+		n = 300
+	}
+	for i := 0; i < n; i++ {
+		nb := 1 + r.Intn(4)
+		content := genContent(r.Pick([]int{0, 1, 5, 7}), r.Intn(1000), nb*65536-r.Intn(60000))
+		fo := frameOpts{bsCode: 4, blockSize: 65536, bc: true, cc: true, size: -1, rawEvery: r.Pick([]int{0, 1, 2})}
+		if r.Intn(3) == 0 {
+			fo.size = int64(len(content))
+		}
+		frame, fields := buildFrame(content, fo, r)
+		cref := saveBlob("ckc", content)
+		conc := r.Pick([]int{1, 1, 2, 4})
+		ops := []string{"wt:-1", fmt.Sprintf("r:%d r:%d r:9", len(content)+1, len(content)+1), "r:1000 r:100000 r:100000 r:100000 r:100000 r:9"}[r.Intn(3)]
+		fmt.Fprintf(w, "R %d %s 0 -1 0 %s E:%s\n", conc, saveBlob("ck", frame), ops, cref)
+		// fields: 0 magic, 1 FLG, 2 HC, then per block size/payload/checksum, then end mark, content checksum
+		flip := func(pos int, exp string) {
+			if pos < 0 || pos >= len(frame) {
+				return
+			}
+			bad := append([]byte{}, frame...)
+			bad[pos] ^= byte(1 << uint(r.Intn(8)))
+			fmt.Fprintf(w, "R %d %s 0 -1 0 %s X:%s P:%s\n", conc, saveBlob("ckbad", bad), ops, exp, cref)
+		}
+		flip(fields[3], "badhdrck")
+		blk := r.Intn(nb)
+		if 4+3*blk+2 < len(fields) {
+			flip(fields[4+3*blk+1]+r.Intn(5), "badblkck") // payload
+			flip(fields[4+3*blk+2]+r.Intn(4), "badblkck")  // checksum word
+		}
+		flip(len(frame)-1-r.Intn(4), "badframeck")
 	}
 }
 
@@ -268,7 +323,14 @@ func genFWFail(w *bufio.Writer, thorough bool, r *Rng) {
 		maxCalls := 2 + 3*(sz/65536+2)
 		for k := 0; k <= maxCalls; k++ {
 			ops2 := append([]string{}, ops...)
-			fmt.Fprintf(w, "W %d %s\n", k, strings.Join(ops2, " "))
+			once := ""
+			if k%3 == 1 && o.conc != 1 {
+				// only this one call fails; the sink works again afterwards.  Concurrent Writers only: they never
+				// touch the sink again after a failure, so the outcome must be that of a lasting failure (a
+				// sequential Writer whose Flush failed retries the block on the next Flush, by design)
+				once = "!"
+			}
+			fmt.Fprintf(w, "W %d%s %s\n", k, once, strings.Join(ops2, " "))
 		}
 	}
 	// failing source for ReadFrom
@@ -521,6 +583,24 @@ func poolLines(w *bufio.Writer, r *Rng) {
 	}
 }
 
+func blobLen(ref string) int { return len(loadBlob(ref)) }
+
+// skipBoundaries: the ends of the leading skippable frames (a stream cut there ends cleanly: it holds
+// complete skippable frames and nothing else)
+func skipBoundaries(fr []byte) map[int]bool {
+	out := map[int]bool{0: true}
+	p := 0
+	for p+8 <= len(fr) {
+		m := binary.LittleEndian.Uint32(fr[p:])
+		if m>>4 != 0x184D2A5 {
+			break
+		}
+		p += 8 + int(binary.LittleEndian.Uint32(fr[p+4:]))
+		out[p] = true
+	}
+	return out
+}
+
 // reuseLines: a Reader taken through Reset in every state a previous stream can leave it in:
 // a partly consumed block (small and large block sizes), a WriteTo that failed on its destination
 // while blocks were in flight, a stream read to its end; the next stream may be a legacy frame with
@@ -548,6 +628,12 @@ func reuseLines(w *bufio.Writer, r *Rng, k int) {
 		fmt.Fprintf(w, "R 1 %s 0 -1 0 r:%d r:9 R:%s r:%d r:9 r:9\n", b, blen+10, l, llen+10)
 		fmt.Fprintf(w, "R %d %s %d -1 0 r:%d R:%s wt:-1 r:9 R:%s r:%d r:7\n", r.Pick([]int{1, 1, 2}), a, r.Pick([]int{0, 7}), part, l, l, llen+10)
 		fmt.Fprintf(w, "R 1 %s 0 -1 0 wt:-1 r:9 R:%s wt:-1\n", l, l)
+		// the stream ends in an error at the content checksum (trailer cut short); the Reader is reused, with
+		// several block buffers in flight afterwards
+		{
+			cut := r.Pick([]int{1, 2, 3, 4})
+			fmt.Fprintf(w, "R 1 %s#%d 0 -1 0 r:%d r:%d r:9 R:%s A:conc=4 r:%d r:9 R:%s wt:-1\n", b, blobLen(b)-cut, blen+10, blen+10, a, alen+10, b)
+		}
 		// WriteTo fails on its destination with blocks in flight, then the Reader is reused
 		fmt.Fprintf(w, "R %d %s 0 -1 0 wt:%d R:%s wt:-1 r:5\n", r.Pick([]int{2, 4, 8}), a, r.Intn(3), b)
 		fmt.Fprintf(w, "R %d %s 0 -1 0 wt:%d R:%s r:%d r:5\n", r.Pick([]int{1, 2, 4}), b, r.Intn(2), a, alen+10)
@@ -635,6 +721,7 @@ func genFRMut(w *bufio.Writer, thorough bool, r *Rng) {
 
 func genFRTrunc(w *bufio.Writer, thorough bool, r *Rng) {
 	poolLines(w, r)
+	legacyTwoBlocks(w, r)
 	n := 14
 	if thorough {
 		n = 400
@@ -663,9 +750,14 @@ func genFRTrunc(w *bufio.Writer, thorough bool, r *Rng) {
 		if len(bf.fields) > 0 {
 			frameStart = bf.fields[0]
 		}
+		bounds := skipBoundaries(bf.frame)
 		for c := range cuts {
 			// a cut at the very start of the frame proper (after leading skippable frames) leaves no frame at all
-			if c < 1 || c >= L || c == frameStart {
+			if c < 1 || c >= L || c == frameStart || bounds[c] {
+				continue
+			}
+			// a legacy frame cut right after its magic is an empty legacy frame
+			if bf.legacy && c == frameStart+4 {
 				continue
 			}
 			// legacy frames: a cut on a block boundary is a valid shorter frame; the impl cannot know, so
@@ -679,6 +771,23 @@ func genFRTrunc(w *bufio.Writer, thorough bool, r *Rng) {
 			}
 			fmt.Fprintf(w, "R %d %s#%d 0 -1 0 %s P:%s\n", r.Pick([]int{1, 1, 4}), bf.ref, c, ops, bf.content)
 		}
+	}
+}
+
+// legacyTwoBlocks: legacy frames have no end mark; a cut that is not on a block boundary must still be an error
+func legacyTwoBlocks(w *bufio.Writer, r *Rng) {
+	content := genContent(r.Pick([]int{2, 3}), r.Intn(1000), (8<<20)+1000+r.Intn(5000))
+	fr := realFrame(content, wopts{bs: 4 << 20, leg: 1, conc: 1})
+	ref, cref := saveBlob("leg2", fr), saveBlob("leg2c", content)
+	// find the second block: magic(4) size(4) payload ...
+	sz1 := int(binary.LittleEndian.Uint32(fr[4:]))
+	second := 8 + sz1
+	for _, c := range []int{second + 1, second + 3, second + 4 + r.Intn(len(fr)-second-5), len(fr) - 1} {
+		if c <= second || c >= len(fr) {
+			continue
+		}
+		ops := []string{"wt:-1", "r:4194304 r:4194304 r:4194304 r:4194304 r:9", "r:9000000 r:9000000 r:9"}[r.Intn(3)]
+		fmt.Fprintf(w, "R 1 %s#%d 0 -1 0 %s X:unexpEOF P:%s\n", ref, c, ops, cref)
 	}
 }
 
@@ -796,7 +905,7 @@ func genFRHostile(w *bufio.Writer, thorough bool, r *Rng) {
 	// several undecodable blocks in a row (a big one cut short, tiny invalid ones), then a valid block
 	for i := 0; i < 12; i++ {
 		code := 4 + r.Intn(4)
-		h2, _ := buildFrame(nil, frameOpts{bsCode: code, bc: false, cc: r.Bool(), size: -1, noEndMark: true}, r)
+		h2, _ := buildFrame(nil, frameOpts{bsCode: code, bc: false, cc: false, size: -1, noEndMark: true}, r)
 		var b bytes.Buffer
 		b.Write(h2)
 		if r.Bool() {
@@ -836,6 +945,25 @@ func genFRFail(w *bufio.Writer, thorough bool, r *Rng) {
 				continue
 			}
 			fmt.Fprintf(w, "R %d %s %d -1 %d wt:-1 E:%s\n", r.Pick([]int{1, 4}), bf.ref, ch, r.Intn(2), bf.content)
+		}
+		// the source ends early (also inside a leading skippable frame): never a clean end
+		if !bf.legacy && len(bf.frame) > 12 {
+			start := 0
+			if len(bf.fields) > 0 {
+				start = bf.fields[0]
+			}
+			cuts := []int{1 + r.Intn(len(bf.frame)-1), 1 + r.Intn(len(bf.frame)-1), len(bf.frame) - 1}
+			if start > 8 {
+				cuts = append(cuts, 5, 8, 9, start-1, start/2+4)
+			}
+			bounds := skipBoundaries(bf.frame)
+			for _, c := range cuts {
+				if c == start || c <= 0 || c >= len(bf.frame) || bounds[c] {
+					continue
+				}
+				fmt.Fprintf(w, "R %d %s#%d %d -1 %d %s X:unexpEOF P:%s\n", r.Pick([]int{1, 4}), bf.ref, c, r.Pick([]int{0, 3}), r.Intn(2),
+					[]string{"wt:-1", fmt.Sprintf("r:%d r:%d r:9", bf.clen+1, bf.clen+1)}[r.Intn(2)], bf.content)
+			}
 		}
 		// the k-th source call fails
 		calls := 12
@@ -900,6 +1028,29 @@ func genConc(w *bufio.Writer, thorough bool, r *Rng) {
 			tail = fmt.Sprintf("r:%d r:%d r:9", len(c2), len(c2))
 		}
 		fmt.Fprintf(w, "R %d %s 0 -1 0 wt:%d z:%d R:%s %s E:%s\n", conc, saveBlob("cf", f1), r.Intn(4), r.Pick([]int{0, 0, 20}), saveBlob("cf", f2), tail, saveBlob("cc", c2))
+	}
+	// reader side: frames that contain empty stored blocks (ReadFrom emits one when the source length is a
+	// multiple of the block size), read concurrently
+	for i := 0; i < n/8+4; i++ {
+		nb := r.Pick([]int{0, 1, 2, 3, 5})
+		content := genContent(r.Pick([]int{0, 1, 5, 7}), r.Intn(1000), nb*65536)
+		var out bytes.Buffer
+		zw := lz4.NewWriter(&out)
+		_ = zw.Apply(lz4.BlockSizeOption(lz4.Block64Kb), lz4.BlockChecksumOption(r.Bool()), lz4.ChecksumOption(r.Bool()))
+		_, _ = zw.ReadFrom(&scriptSrc{data: content, failAt: -1})
+		_ = zw.Close()
+		fr := out.Bytes()
+		if r.Intn(3) == 0 && len(fr) > 11 { // one more empty block in the middle of the frame
+			fr = append(append(append([]byte{}, fr[:7]...), 0, 0, 0, 0x80), fr[7:]...)
+			if fr[4]&0x10 != 0 {
+				fr = append(append(append([]byte{}, fr[:11]...), 0x05, 0x5d, 0xcc, 0x02), fr[11:]...)
+			}
+		}
+		ref, cref := saveBlob("emptyblk", fr), saveBlob("emptyblkc", content)
+		for _, conc := range []int{1, 2, 4} {
+			ops := []string{"wt:-1", fmt.Sprintf("r:%d r:%d r:9", len(content)+1, len(content)+1)}[r.Intn(2)]
+			fmt.Fprintf(w, "R %d %s 0 -1 0 %s E:%s\n", conc, ref, ops, cref)
+		}
 	}
 	// reader side: many-block frames, valid and with one corrupted block, slow consumers
 	for i := 0; i < n/2; i++ {
